@@ -28,6 +28,8 @@ pub mod vmconv;
 pub mod vmev;
 #[path = "vgenm.rs"]
 pub mod vgenm;
+#[path = "vmul.rs"]
+pub mod vmul;
 
 use crate::compile_util::*;
 use crate::util::*;
@@ -147,6 +149,7 @@ pub fn mprepare(src: &str, hist: &mut Hist) -> Result<MPrepared, String> {
         prog.push(cv.enum_def(ir::EnumId(i)));
     }
     prog.extend(items);
+    vmul::patch_program(&ir, &mut prog, hist);
     Ok(MPrepared { ir, prog, funcs, globals })
 }
 
